@@ -16,7 +16,9 @@ RULE = ('Base object (any elementary surface incl. one-sheet cones and tori, '
         'matrices (two rows, two columns, one row + one column, J '
         'placeholders); TRCL=n; inline TRCL=( ) and *TRCL=( ) with 3, 12 or '
         '13 entries; implicit surface numbers 1000*cell+surface used by '
-        'another cell. Oracle: a point belongs to the converted object iff '
+        'another cell; one card written twice under two transformation numbers '
+        '(same displacement, same rotation, unrelated). Oracle: a point '
+        'belongs to the converted object iff '
         'its image under the inverse motion belongs to the base object '
         '(DESIGN 4.2), on uniform + bisected near-boundary points. '
         'Non-trivial: rotation not the identity and displacement not zero, '
@@ -31,7 +33,7 @@ ASSUMPTIONS = [
 ]
 
 MODES = ['surf-tr', 'surf-tr', 'trcl-num', 'trcl-inline', 'trcl-inline',
-         'implicit', 'surf-tr+trcl']
+         'implicit', 'surf-tr+trcl', 'twins']
 SURF_KINDS = gen.ELEMENTARY
 ROT_ALL = ('generic', 'perm', 'flip', 'small', 'identity', 'axis')
 
@@ -86,6 +88,57 @@ def tr_case(draw, tier='quick', focus=None):
         sid = s['id']
         deck['cells'].append(md.cell(1, 0, None, md.S(-sid), imp={'n': 1}))
         deck['cells'].append(md.cell(2, 0, None, md.S(sid), imp={'n': 1}))
+    elif mode == 'twins':
+        # one card written twice under two transformation numbers (an object
+        # replicated at two places): each copy is moved by its own card, also
+        # when the two motions share their displacement or their rotation
+        spec1, lab1 = draw(gen.tr_spec(rot_classes=rot_cls,
+                                       translation_only_weight=0))
+        spec2, lab2 = draw(gen.tr_spec(rot_classes=rot_cls,
+                                       translation_only_weight=0))
+        rel = draw(st.sampled_from(['same-disp', 'zero-disp', 'same-rot',
+                                    'free']))
+        if rel == 'same-disp':
+            spec2['o'] = list(spec1['o'])
+        elif rel == 'zero-disp':
+            spec1['o'] = [0.0, 0.0, 0.0]
+            spec2['o'] = [0.0, 0.0, 0.0]
+        elif rel == 'same-rot':
+            spec2 = dict(spec1, o=spec2['o'])
+        labels += lab1 + ['twins:' + rel]
+        t1, t2 = draw(st.sampled_from([(1, 2), (7, 3), (20, 148)]))
+        deck['transforms'].append({'id': t1, 'spec': spec1})
+        deck['transforms'].append({'id': t2, 'spec': spec2})
+        if draw(st.integers(0, 2)) == 0:
+            # tori are the one kind written with a TRANSFORM block
+            kind = draw(st.sampled_from(['tx', 'ty', 'tz']))
+            k, p, lab = draw(gen.elementary_params(kind))
+            sa = md.surf(draw(st.sampled_from([1, 8, 77])), k, p)
+            lab = ['kind:' + kind] + lab
+            if draw(st.booleans()):
+                # centred on the origin of its own frame and turned about it:
+                # the two copies differ by their orientation only
+                sa['params'][0:3] = [0.0, 0.0, 0.0]
+                spec1['o'] = [0.0, 0.0, 0.0]
+                spec2['o'] = [0.0, 0.0, 0.0]
+                labels.append('twins:centred-torus')
+        else:
+            sa, lab = draw(base_surface(draw(st.sampled_from([1, 8, 77])),
+                                        focus=focus))
+        labels += lab
+        sb = md.surf(sa['id'] + draw(st.sampled_from([1, 5])), sa['kind'],
+                     list(sa['params']))
+        sa['tr'] = t1
+        sb['tr'] = t2
+        deck['surfaces'] += [sa, sb]
+        a, b = sa['id'], sb['id']
+        deck['cells'].append(md.cell(1, 0, None, md.S(-a), imp={'n': 1}))
+        deck['cells'].append(md.cell(2, 0, None, md.AND(md.S(a), md.S(-b)),
+                                     imp={'n': 1}))
+        deck['cells'].append(md.cell(3, 0, None, md.AND(md.S(a), md.S(b)),
+                                     imp={'n': 1}))
+        if draw(st.booleans()):
+            deck['surfaces'].reverse()
     else:
         n_s = draw(st.sampled_from([1, 1, 2, 3]))
         sids = []
@@ -196,13 +249,24 @@ def identity_check(case, deck, t4, box):
     surface function must be a constant multiple of the MCNP function
     evaluated at the inverse image (randomized polynomial identity, 1e-8):
     point sampling alone would not see a displacement error of 1e-5."""
-    if 'mode:surf-tr' not in case['labels']:
+    if 'mode:surf-tr' not in case['labels'] and \
+            'mode:twins' not in case['labels']:
         return None
-    s_ = deck['surfaces'][0]
+    for s_ in deck['surfaces']:
+        if s_.get('tr') is None:
+            continue
+        spec = [t for t in deck['transforms'] if t['id'] == s_['tr']][0]['spec']
+        prob = _identity_one(case, s_, spec, t4, box)
+        if prob is not None:
+            return prob
+    return None
+
+
+def _identity_one(case, s_, spec, t4, box):
     if s_['kind'].lower() in mgeom.MACRO_KINDS or s_['id'] not in t4.surfs:
         return None
     from .. import t4eval
-    T = md.rigid_of(deck['transforms'][0]['spec'])
+    T = md.rigid_of(spec)
     rng = np.random.Generator(np.random.PCG64(case['pseed'] + 3))
     Q = rng.uniform(-box, box, (60, 3))
     f, fs, _cone = mgeom.surface_fs(s_['kind'], s_['params'], T.to_aux(Q))
@@ -268,6 +332,9 @@ def check(case):
                          labels, counts=counts)
     owners = set(int(o) for o in cmp_.loc.owner[cmp_.decided])
     nontrivial = (not rot_id) and (not no_disp) and len(owners) >= 2
+    if 'mode:twins' in labels:
+        # both copies and the outside were hit
+        nontrivial = (not rot_id) and len(owners) >= 3
     return ok(labels, nontrivial, sig=case_sig(text), counts=counts)
 
 
